@@ -266,6 +266,8 @@ class CliSim(object):
             if op.get("draws"):
                 np.random.rand(op["draws"])
             self.stats["fired:rng_perturb"] += 1
+        elif op["op"] == "envvar":
+            self.env.set_envvar(op["name"], op["value"])
         self.emit({"i": step, "env": op})
 
     def case_order(self, step, case):
